@@ -79,6 +79,12 @@ func featuresOf(s string) api.CoreFeatures {
 		return api.CoreFeaturesV1
 	case "v2":
 		return api.CoreFeaturesV2
+	case "v1b": // one proposal on top of 1.0: features also come one at a time
+		return api.CoreFeaturesV1 | api.CoreFeatureBulkMemoryOperations
+	case "v1r":
+		return api.CoreFeaturesV1 | api.CoreFeatureReferenceTypes
+	case "v1m":
+		return api.CoreFeaturesV1 | api.CoreFeatureMultiValue | api.CoreFeatureSignExtensionOps | api.CoreFeatureNonTrappingFloatToIntConversion
 	}
 	return api.CoreFeaturesV2 | experimental.CoreFeaturesThreads | experimental.CoreFeaturesTailCall
 }
